@@ -236,6 +236,8 @@ def build_seq_scenarios(ctx, rng):
         gs += g.distinct
         gt += g.generated
         want = nt if ctx.thorough else nq
+        if "mini" in DEV:
+            want = max(60, want // 6)
         got.sort(key=lambda s: json.dumps(s, sort_keys=True))
         exhaustive = len(got) <= want
         if not exhaustive:
@@ -586,6 +588,9 @@ def forced_conc():
         {"cfg": cfg, "pro": [J], "g": [[{"o": "relay", "h": 1}], [{"o": "close", "h": 1}]]},
         {"cfg": cfg, "pro": [J], "g": [[{"o": "evh", "h": 1}], [{"o": "close", "h": 1}]]},
         {"cfg": cfg, "pro": [J], "g": [[{"o": "close", "h": 1}], [{"o": "psub", "t": "A", "cap": 1}], [{"o": "join", "t": "A"}]]},
+        {"cfg": cfg, "pro": [J], "g": [[{"o": "close", "h": 1}], [{"o": "relay", "h": 1}], [{"o": "evh", "h": 1}]]},
+        {"cfg": cfg, "pro": [J], "g": [[{"o": "close", "h": 1}], [{"o": "pub", "h": 1, "m": "c1"}], [{"o": "ppub", "t": "A", "m": "c2"}]]},
+        {"cfg": cfg, "pro": [J, {"o": "sub", "h": 1, "cap": 1}], "g": [[{"o": "close", "h": 1}], [{"o": "join", "t": "A"}]]},
         # Cancel racing delivery racing Next; a slow second subscriber
         {"cfg": cfg, "pro": [J, {"o": "sub", "h": 1, "cap": 1}, {"o": "sub", "h": 1, "cap": 1}],
          "g": [[{"o": "next", "s": 1}, {"o": "next", "s": 1}, {"o": "next", "s": 1}], [{"o": "pub", "h": 1, "m": "c1"}, {"o": "pub", "h": 1, "m": "c2"}, {"o": "pub", "h": 1, "m": "c3"}],
@@ -605,6 +610,8 @@ def build_conc_scenarios(ctx, rng):
         gs += g.distinct
         gt += g.generated
         want = nt if ctx.thorough else nq
+        if "mini" in DEV:
+            want = max(30, want // 4)
         got.sort(key=lambda s: json.dumps(s, sort_keys=True))
         exhaustive = len(got) <= want
         if not exhaustive:
@@ -809,6 +816,8 @@ def run(ctx):
         return run_replay(ctx)
     # the model-level phase (TLC only) runs while the Go drivers replay the scenarios; the trace validations (TLC again) follow it
     mc_pool = cf.ThreadPoolExecutor(max_workers=1)
+    if "mini" in DEV:
+        ctx.notes.append("reduced volumes (VERIF_X09_DEV=mini): development aid for mutation screening only")
     if "nomc" in DEV:
         mc_fut = None
         ctx.notes.append("model-level phase skipped (VERIF_X09_DEV)")
